@@ -2613,8 +2613,11 @@ def reset_data(m: types.Model, d: types.Data, reset: Optional[wp.array] = None):
         return
 
     solver_niter_out[worldid] = 0
-    if worldid == 0:
-      nacon_out[0] = 0
+    if wp.static(reset is None):
+      # the contact buffer is shared by all worlds: it can only be emptied when every world is reset
+      # (with a mask, reset_contact below detaches the contacts of the reset worlds instead)
+      if worldid == 0:
+        nacon_out[0] = 0
     ne_out[worldid] = 0
     nf_out[worldid] = 0
     nl_out[worldid] = 0
@@ -2726,7 +2729,11 @@ def reset_data(m: types.Model, d: types.Data, reset: Optional[wp.array] = None):
       contact_vert_out[conid] = wp.vec2i(0, 0)
     for i in range(nefcaddress):
       contact_efc_address_out[conid, i] = -1
-    contact_worldid_out[conid] = 0
+    if wp.static(reset is None):
+      contact_worldid_out[conid] = 0
+    else:
+      # partial reset: the slot stays in the shared buffer until the next collision pass; it belongs to no world
+      contact_worldid_out[conid] = -1
     contact_type_out[conid] = 0
     contact_geomcollisionid_out[conid] = 0
     contact_adhesion_out[conid] = 0.0
